@@ -288,7 +288,7 @@ def search_models(chk, pid, quick):
         "C03": [("MCSearch", "MCSearch_legal", False), ("MCSearch", "MCSearch_collide", True)] + ([] if quick else [("MCSearch", "MCSearch_legal_t", False)]),
         "C04": [("MCSearch", "MCSearchCtl", False), ("MCSearch", "MCSearchCtl_pinned", True), ("MCSearch", "MCSearchCtl2", False),
                 ("MCSearch", "MCSearch_mated", False), ("MCSearch", "MCSearch_mated_pinned", True)],
-        "C06": [("MCSearch", "MCSearch_mate", False), ("MCSearch", "MCSearch_rich", False)],
+        "C06": [("MCSearch", "MCSearch_mate", False), ("MCSearch", "MCSearch_qs", False), ("MCSearch", "MCSearch_rich", False)],
         "C17": [("MCSearch", "MCSearch_history", False), ("MCSearch", "MCSearch_history_t", False)],
         "C19": [("MCSearch", "MCSearch_det", False)],
     }[pid]
